@@ -501,7 +501,7 @@ RGS(n) == IF n = 1 THEN {<<1>>}
           ELSE UNION {{Append(s, v) : v \in 1..(Max(Range(s)) + 1)} : s \in RGS(n - 1)}
 Distinct(n) == [i \in 1..n |-> i]
 
-TapMaxLeaves == IF Thorough THEN 8 ELSE 6
+TapMaxLeaves == IF Thorough THEN 10 ELSE 6
 TapDupLeaves == IF Thorough THEN 6 ELSE 4
 VerPatterns(n) == {"base", "alt-first", "alt-last", "alt-all"}
 VerOf(pat, i, n) ==
@@ -629,7 +629,7 @@ Group == /\ case.kind = "root"
             \/ \E r \in HdRoots \cup DeepRoots : G("hd", r)
             \/ \E v \in HdVersions : G("hdstr", v)
             \/ \E n \in 1..TapMaxLeaves : G("tap", n)
-            \/ \E n \in 2..(IF Thorough THEN 6 ELSE 5) : G("tapgen", n)
+            \/ \E n \in 2..(IF Thorough THEN 7 ELSE 5) : G("tapgen", n)
 InGroup(k) == case.kind = "group" /\ case.of = k
 
 PickNet ==
